@@ -4,6 +4,12 @@
 //         the K sampler calls share one generator; the sequence is run twice from equal generator states.
 //         Output: the values returned by the calls, then  <uniforms consumed> <det> <next raw output>
 //         where det = 1 iff both runs printed identical values and left equal generator states behind.
+//   seqn  <seed> <nstate> w.. <N> u.. <seed2> <N2> v.. <K> op_1 .. op_K
+//         two generators (the calls are made on the first one; `onaux` makes a call on the second); user functions
+//         may be re-entrant (`nest`, see parse_op).  Output: the values (after a nest call: the number of evaluations
+//         of its user function), then <uniforms consumed from generator 1> <from generator 2> <det>
+//         <evaluations of re-entrant user functions> <n <= 6> <canonical draws made by both generators at the
+//         first n evaluations> <next raw output of generator 1> <of generator 2>
 //   mgrid <seed> <sample> <thinning> <burn_in> <dim> <bounded>
 //         Output: <number of samples> <uniforms consumed> <all samples inside the domain> <det>
 //   law   <kind> <target> <seed> <n> ...   (many samples in one line, for the distributional tests)
@@ -13,6 +19,54 @@
 #include <sstream>
 #include <sys/time.h>
 using namespace libphysica;
+static std::function<double(double, double)> fun2(std::shared_ptr<vh::FExpr> e)
+{
+	return [e](double x, double y) {
+		double v[3] = {x, y, 0};
+		return vh::eval_fexpr(*e, v);
+	};
+}
+
+// generator in the state described by the case: std::mt19937(seed); with nstate > 0 the first nstate state
+// words are replaced and the read position is set to 0, so that the next outputs are the tempered words.
+static std::mt19937 make_gen(vh::Reader& r)
+{
+	unsigned long seed = std::strtoul(r.word().c_str(), nullptr, 10);
+	long ns			   = r.integer();
+	std::mt19937 g((std::mt19937::result_type) seed);
+	if(ns > 0)
+	{
+		std::ostringstream os;
+		os << g;
+		std::istringstream is(os.str());
+		std::vector<std::string> w;
+		std::string t;
+		while(is >> t)
+			w.push_back(t);	  // 624 state words, then the position
+		for(long k = 0; k < ns; k++)
+			w[k] = r.word();
+		w[624] = "0";
+		std::string s;
+		for(auto& x : w)
+			s += x + " ";
+		std::istringstream is2(s);
+		is2 >> g;
+	}
+	return g;
+}
+
+// number of raw 32-bit outputs that take generator `from` to the state of `to` (-1: not within the cap)
+static long raw_distance(std::mt19937 from, const std::mt19937& to, long cap = 40000000)
+{
+	for(long c = 0; c <= cap; c++)
+	{
+		if(from == to)
+			return c;
+		from();
+	}
+	return -1;
+}
+
 // ---- sampler calls of the seq / seqn case language --------------------------------------------------------------
 // A call works on the CURRENT generator of its context (g); the context also knows a second generator (h).
 //   onaux <op>                         the call is made on the other generator (g and h swapped)
